@@ -553,4 +553,34 @@ theorem jarText_length (l : List (List Char × List Char)) : l.length ≤ (jarTe
       simp only [jarText, List.length_cons, List.length_append] at ih ⊢
       omega
 
+/-! ### the environ-level parser: latin-1 → UTF-8 dance is the identity on ASCII text -/
+
+def asciiText (s : List Char) : Bool := s.all (fun c => c.toNat < 128)
+
+theorem utf8Enc_asciiText (s : List Char) (h : asciiText s = true) :
+    utf8Enc s = s.map (fun c => UInt8.ofNat c.toNat) := by
+  induction s with
+  | nil => rfl
+  | cons c t ih =>
+    simp only [asciiText, List.all_cons, Bool.and_eq_true, decide_eq_true_eq] at h
+    have hc := utf8Enc_ascii_table c.toNat h.1
+    have hcc : Char.ofNat c.toNat = c := by simp
+    rw [hcc] at hc
+    simp only [utf8Enc, List.flatMap_cons, hc, List.map_cons] at *
+    simp [ih (by simpa [asciiText] using h.2)]
+
+theorem latin1Enc_asciiText (s : List Char) (h : asciiText s = true) :
+    Py.latin1Enc s = some (s.map (fun c => UInt8.ofNat c.toNat)) := by
+  induction s with
+  | nil => rfl
+  | cons c t ih =>
+    simp only [asciiText, List.all_cons, Bool.and_eq_true, decide_eq_true_eq] at h
+    have : c.toNat < 256 := by omega
+    simp [Py.latin1Enc, this, ih (by simpa [asciiText] using h.2)]
+
+theorem dance_asciiText (s : List Char) (h : asciiText s = true) :
+    (Py.latin1Enc s).map Py.decodeReplace = some s := by
+  rw [latin1Enc_asciiText s h, ← utf8Enc_asciiText s h]
+  simp [Py.decodeReplace_utf8Enc]
+
 end Wz.Cookie
